@@ -22,7 +22,7 @@ CLAIMED = {
    text="Every history of valid updates and supported queries up to depth 7 over 2 labels / depth 6 over 3 labels (thorough: 8 / 7), for the 15 solver configurations (3 buffered solvers, 2 attack-assumption solvers x 5 reservation factors, 2 recompute wrappers), plus all continuations from every <=3-argument framework built with compact and with sparse ids; each step compared with the reference semantics of the framework at that moment; the shared SAT solver is CaDiCaL and the controlled oracle (D<=2).",
    note="trusted: reference store (bit sets) and reference semantics; certificate ids checked against an insertion-rank ledger; histories longer than the bound, >3 labels, other factors not covered", ref="4 C08, 2.2"),
  "C09": dict(engine="E2+E1", technique="bounded exhaustive exploration of histories with up to 2 redundant/invalid updates at every position",
-   text="The C08 alphabet extended with redundant and invalid updates (one never-declared label) at every position, up to 2 per history, depth <=5/6 (thorough 6/8), all 15 solver configurations, from the empty solver and from every <=2-argument framework; redundant must be a no-op, invalid must return Err from the update call itself, later steps must be those of the history without the bad operation. A history is cut at its first deviation; 20 call-site classes of one recorded defect (F7) are listed in known_findings.txt.",
+   text="The C08 alphabet extended with redundant and invalid updates (one never-declared label) at every position, up to 2 per history, depth <=5/6 (thorough 6/8), all 15 solver configurations, from the empty solver and from every <=2-argument framework, plus 4 updates (exactly one bad) then one query from every <=2-argument start state (thorough also 3 labels); redundant must be a no-op, invalid must return Err from the update call itself, later steps must be those of the history without the bad operation. A history is cut at its first deviation; 20 call-site classes of one recorded defect (F7) are listed in known_findings.txt.",
    note="same as C08; the buffered solvers are not explored beyond their first invalid update (known finding F7 cuts the history there)", ref="4 C09, 5.3"),
  "C17": dict(engine="E1 fault injection", technique="exhaustive fault enumeration: Unknown injected at every node of the oracle choice tree",
    text="For every framework with <=3 arguments (and S on the default path; thorough: U(4) default path), every problem, encoder, argument and certificate flag, and every node of the complete oracle choice tree, one extra execution in which that SAT call answers Unknown: the query must unwind and produce no status, certificate or extension. Same for the dynamic solvers over all depth-5 histories ending in a query. Vacuity guard: all unwrap_model call sites of the library are shown reached (backtraces). Process-level failure kinds through the CLI are part of the same check.",
@@ -37,7 +37,7 @@ CLAIMED = {
    text="Stateful breadth-first exploration of AAFramework<usize> and AAFramework<String> over 2 labels (depth 11/13) and 3 labels (depth 8/9), from three constructors, every operand combination in every state; every observable compared with a set-based reference after EVERY step of every replay; rejected / redundant updates must leave the concrete state byte-identical.",
    note="identical concrete states have identical futures (no abstraction in the dedup key); depth-bounded because ids grow", ref="4 C12"),
  "C13": dict(engine="E3", technique="exhaustive small-scope enumeration of input byte strings with a three-zone oracle",
-   text="109 M inputs per quick run (3 G thorough): all token strings (<=6/7 tokens), all line sequences (<=5/6 lines, with/without final newline), every single byte/token/line edit of a 12-file corpus, all byte strings of length <=2 (and 3 over 40 bytes), every well-formed file of U(<=3) in a layout menu, for both readers; no panic anywhere, strict-grammar files accepted faithfully (labels, ids, order, attacks), the ill-formedness classes the property lists rejected, files with an undecodable line either rejected or read without dropping any well-formed declaration, read_arg_from_str probed.",
+   text="109 M inputs per quick run (3 G thorough): all token strings (<=6/7 tokens), all line sequences (<=5/6 lines, with/without final newline), every single byte/token/line edit of a 12-file corpus, all byte strings of length <=2 (and 3 over 40 bytes), every well-formed file of U(<=3) in a layout menu, one line of every length with one character of every UTF-8 width at every offset <=130 in 7 syntactic positions, for both readers; no panic anywhere, strict-grammar files accepted faithfully (labels, ids, order, attacks), the ill-formedness classes the property lists rejected, files with an undecodable line either rejected or read without dropping any well-formed declaration, read_arg_from_str probed.",
    note="the harness zone classifier is the specification; CRLF, irregular spacing, duplicate declarations, exotic number spellings are unspecified on purpose", ref="4 C13, 6"),
  "C14": dict(engine="E2+E3", technique="explicit-state exploration of framework states, each written and read back",
    text="Every unique concrete state of AAFramework<String> reached by the store exploration over three universes of valid Aspartix identifiers is written by AspartixWriter and read back (same labels, order, attack set; output in the strict grammar); every ordered selection of <=3 arguments through both ResponseWriters is byte-compared with the answer grammar and parsed back; statuses byte-exact.",
